@@ -194,6 +194,11 @@ const (
 	hNumObjOps
 )
 
+// a value with a String method is still not a string
+type hStringerKey struct{ n int }
+
+func (k hStringerKey) String() string { return "k" }
+
 func (h *hOHeap) apply(t int, op int) {
 	o := h.objs[t]
 	m := h.models[t]
@@ -215,7 +220,29 @@ func (h *hOHeap) apply(t int, op int) {
 		p := verifCatch(func() { o.Set(hKey(), nondetInt(), hKey()) })
 		verifAssert(p, "Set panics on an odd number of arguments")
 	case ooSetBadKey:
-		p := verifCatch(func() { o.Set(nondetInt(), nondetInt()) })
+		var bad any
+		switch nondetIntRange(0, 8) {
+		case 0:
+			bad = nondetInt()
+		case 1:
+			bad = hFiniteFloat()
+		case 2:
+			bad = nondetBool()
+		case 3:
+			bad = nil
+		case 4:
+			bad = NewList("k") // containers print as text, but are not strings
+		case 5:
+			bad = NewObject("k", 1)
+		case 6:
+			bad = []byte("k")
+		case 7:
+			bad = hStringerKey{7}
+		default:
+			ks := "k"
+			bad = &ks
+		}
+		p := verifCatch(func() { o.Set(bad, nondetInt()) })
 		verifAssert(p, "Set panics on a non-string key")
 	case ooUnset1:
 		k := hKey()
